@@ -8,6 +8,7 @@ package validator
 import (
 	"fmt"
 	"os"
+	"sort"
 	"strings"
 	"testing"
 	"time"
@@ -986,7 +987,7 @@ func TestVerifC06Combined(t *testing.T) {
 		if useBasic {
 			colonOneIn := 4
 			if knownColon {
-				colonOneIn = 1 << 30 // the single-method check keeps observing the finding
+				colonOneIn = 0 // never: the single-method check keeps observing the finding
 				vf.Exclude()
 			}
 			c.Users = vfGenUsers(rt, colonOneIn)
@@ -1331,12 +1332,130 @@ func TestVerifC06Malformed(t *testing.T) {
 		for i := range vars {
 			x := &vars[i]
 			vf.Class(x.Label, "malformed:oracle-"+x.want().String())
-			vf.Case(true, y+"||"+x.Req.String(), func() interface{} {
+			// not part of the non-triviality rule (no accepted base): counted as evaluated only
+			vf.Case(false, y+"||"+x.Req.String(), func() interface{} {
 				return map[string]interface{}{"check": "malformed", "config": y, "request": x.Req.String(), "oracle": x.want().String()}
 			})
 			if vfCompare(vf, rt, v, x, 0, descr) {
 				return
 			}
 		}
+	})
+}
+
+// ---------------------------------------------------------------- own SigV4-style client against the real verifier
+
+func TestVerifC06SigV4Cross(t *testing.T) {
+	vf := vfBegin(t, "C06")
+	defer vf.End()
+	rapid.Check(t, func(rt *rapid.T) {
+		c := vfGenSigCfg(rt)
+		v, y, err := vfC06NewValidator(map[string]interface{}{"signature": c.spec()})
+		if err != nil {
+			rt.Fatalf("VF-INCONCLUSIVE generated spec rejected: %v\n%s", err, y)
+		}
+		defer v.Close()
+		lit := c.Lit.lit()
+		// bodies only where the server does not hash them (the signed-body defect has its own check)
+		carrier := vfGenCarrier(rt, vfCarrierOpts{NoBody: !c.ExcludeBody, MaxBody: 4096})
+		// most cases: keep the query inside the part where the AWS documents and the repo's signer
+		// agree (no space); the rest stays in as the "ambiguous" class
+		if !vfOneIn(rt, 5, "keepSpaceInQuery") {
+			var keep []string
+			for _, p := range strings.Split(carrier.RawQuery, "&") {
+				if p != "" && !strings.ContainsAny(vfPctDecode(p), " ") {
+					keep = append(keep, p)
+				}
+			}
+			carrier.RawQuery = strings.Join(keep, "&")
+		}
+		key := c.Keys[rapid.IntRange(0, len(c.Keys)-1).Draw(rt, "keyIdx")]
+		plan, _ := vfGenSigPlan(rt, c, "valid", false)
+		plan.KeyID, plan.Secret = key.ID, key.Secret
+		var extra []string
+		seen := map[string]bool{}
+		for _, h := range carrier.Hdr {
+			n := strings.ToLower(h.K)
+			if !seen[n] && rapid.Bool().Draw(rt, "sign-"+n) {
+				extra = append(extra, n)
+			}
+			seen[n] = true
+		}
+		payload := vfSha256Hex(nil)
+		if c.ExcludeBody {
+			payload = "UNSIGNED-PAYLOAD"
+		}
+		signedReq := vfSigV4Sign(lit, key, time.Now().Add(-plan.Age), plan.Scopes, carrier, extra, payload)
+		names := append([]string{"host", strings.ToLower(lit.Date)}, extra...)
+		s := &vfSigned{Cfg: c, Plan: plan, Req: signedReq, Names: names, Verdict: vfPlanVerdict(c, plan)}
+		space := false
+		for _, p := range vfParseQuery(carrier.RawQuery) {
+			if strings.Contains(p.K, " ") || strings.Contains(p.V, " ") {
+				space = true
+			}
+		}
+		// AWS sorts the canonical query after encoding, the repo's signer before: where the two
+		// orders differ (names outside ASCII next to ASCII ones) the outcome is left open as well
+		{
+			ps := vfParseQuery(carrier.RawQuery)
+			var enc, dec []string
+			for _, p := range ps {
+				enc = append(enc, vfURIEncode(p.K, false)+"="+vfURIEncode(p.V, false))
+			}
+			sort.SliceStable(ps, func(i, j int) bool {
+				if ps[i].K != ps[j].K {
+					return ps[i].K < ps[j].K
+				}
+				return ps[i].V < ps[j].V
+			})
+			for _, p := range ps {
+				dec = append(dec, vfURIEncode(p.K, false)+"="+vfURIEncode(p.V, false))
+			}
+			sort.Strings(enc)
+			if strings.Join(enc, "&") != strings.Join(dec, "&") {
+				space = true
+				vf.Class("sigx:query-sort-order-differs(ambiguous)")
+			}
+		}
+		if space {
+			// AWS encodes a space in the canonical query as %20, the repo's signer as '+': a client
+			// written from the AWS documents is refused. The docs only say "compatible": left open.
+			s.Verdict = vfEither
+			vf.Class("sigx:space-in-query(ambiguous)")
+		}
+		descr := func() string {
+			return "spec:\n" + y + vfPlanString(plan) + "\nsigned by the harness's own SigV4 implementation; signed headers: " + strings.Join(names, ";")
+		}
+		b := vfVariant{Label: "sigx:own-sigv4-client", Req: signedReq, Hdr: vfAccept, Cred: s.Verdict}
+		vars := []vfVariant{b}
+		kinds := append(append([]string(nil), vfSigCoveredKinds...), vfSigUncoveredKinds...)
+		if !c.ExcludeBody && vf.HasKnown(vfKnownSigBodyAccepted) {
+			var k2 []string
+			for _, k := range kinds {
+				if k != "body" {
+					k2 = append(k2, k)
+				}
+			}
+			kinds = k2
+			vf.Exclude()
+		}
+		n := rapid.IntRange(1, 4).Draw(rt, "nmut")
+		for i := 0; i < n; i++ {
+			m, k := vfSigTamper(rt, s, kinds)
+			cv, _ := s.vfSigVerdict(&m)
+			lab := "sigx:" + k
+			if !c.ExcludeBody && len(m.Body) > 0 {
+				lab = "sig:signed-body" // the one class of the signed-body defect
+			}
+			x := vfVariant{Label: lab, Req: m, Hdr: vfAccept, Cred: cv}
+			x.Covered = s.Verdict == vfAccept && cv == vfReject
+			vars = append(vars, x)
+		}
+		hard := vfPathNeedsEscaping(signedReq.Path) || vfQueryMultiValued(carrier.RawQuery) || len(extra) > 0
+		vf.Class("sigx:literal-" + c.Lit.Name)
+		if len(extra) > 0 {
+			vf.Class("sigx:extra-signed-headers")
+		}
+		vfRunVariants(vf, rt, v, "sigx", vars, hard, vfDrawLimit(rt), descr)
 	})
 }
